@@ -28,6 +28,7 @@ def IntTy.size : IntTy → Nat
 
 /-- One hint inside `#[repr(...)]`. `packed` without argument is `packed 1` (as in both parsers). -/
 inductive Hint
+  | rust                 -- the explicitly spelled default, `repr(Rust)`: known to rustc, NOT to the macro's parser
   | c
   | transparent
   | packed (n : Nat)
@@ -88,6 +89,7 @@ def parseStep (ret : Representation) : Hint → Option Representation
   | .c => match ret.repr with | .rust => some { ret with repr := .c } | _ => none
   | .transparent => match ret.repr with | .rust => some { ret with repr := .transparent } | _ => none
   | .int t => match ret.repr with | .rust => some { ret with repr := .int t } | _ => none
+  | .rust => none                                                -- "unrecognized representation hint"
 
 def parseFrom (ret : Representation) : List Hint → Option Representation
   | [] => some ret
@@ -239,6 +241,7 @@ def intsOf : List Hint → List IntTy
 
 def hasC (hs : List Hint) : Bool := hs.any (· == .c)
 def hasTransparent (hs : List Hint) : Bool := hs.any (· == .transparent)
+def hasRust (hs : List Hint) : Bool := hs.any (· == .rust)
 
 def maxl : List Nat → Nat
   | [] => 0
@@ -269,6 +272,7 @@ def packsAgree : List Nat → Bool
 /-- Item-kind independent checks (`none` = compile error). -/
 def rustcRepr (hs : List Hint) : Option RRepr :=
   if hasTransparent hs && decide (hs.length > 1) then none               -- E0692
+  else if hasRust hs && (hasC hs || !(intsOf hs).isEmpty) then none      -- E0566 (explicit Rust + C / int)
   else if decide ((intsOf hs).length > 1) then none                      -- E0566 (deny-by-default lint)
   else if !packsAgree (packsOf hs) then none                             -- E0634
   else if !(packsOf hs).isEmpty && !(alignsOf hs).isEmpty then none      -- E0587
